@@ -39,7 +39,8 @@ def generate(ctx):
              "reduction": rng.choice(["sum", "sum", "mean", "amax"]), "reward": rng.choice(["scalar+", "scalar-", "tensor", "tensor"]),
              "scale": rng.choice([1.0, 0.5, 2.0]), "p": rng.choice([0.3, 0.5, 0.8]), "seed": rng.randrange(1 << 30),
              "reassign_delays": bool(delay) and rng.random() < 0.4, "per_cell": rng.random() < 0.4,
-             "lr_a3": rng.choice([0.3, -0.3, 1.5, -1.5]), "lr_b3": rng.choice([0.2, -0.2, 1.2, -1.2])}
+             "lr_a3": rng.choice([0.3, -0.3, 1.5, -1.5]), "lr_b3": rng.choice([0.2, -0.2, 1.2, -1.2]),
+             "clear_at": rng.choice([None, None, 3, 5]), "keepshape": rng.random() < 0.6}
         if d["reward"] == "tensor":
             d["reduction"] = "sum"   # per-sample signals split the batch by sign: only a sum is reduction-order free
         if rng.random() < 0.4:
@@ -114,6 +115,12 @@ def run_trainer_history(ctx, desc, prop, pre_seq, post_seq, rewards, extra_check
         if desc.get("reassign_delays") and t and t % 3 == 0:
             k = torch.randint(0, 4, h.conn.delay.shape, generator=g)
             h.conn.delay = (k * h.dt).to(h.conn.delay.dtype)
+        if t and desc.get("clear_at") == t:
+            # a new episode: trainer and layer forget their histories (both documented forms of clear) - a fresh oracle
+            h.trainer.clear(keepshape=bool(desc.get("keepshape")))
+            h.layer.clear()
+            orc = tr.Oracle(name, conn_kind, h.conn, h.dt, hyper, red)
+            ctx.count("episode_clears")
         delays = None if h.conn.delayedby is None else h.conn.delay.detach().clone()
         reward = rewards[t] if rewards is not None else None
         try:
